@@ -114,7 +114,8 @@ type Knobs struct {
 	YieldRMW   bool `json:"yield_rmw"`
 	MaxSteps   int  `json:"max_steps"`
 	IdleBudget int  `json:"idle_budget"` // how many 100 ms idle advances are allowed
-	// Strategy: 0 uniform, 1 run-to-completion with random preemption, 2 PCT-like priorities
+	// Strategy: 0 uniform, 1 run-to-completion with random preemption, 2 PCT-like priorities,
+	// 3 stutter (one runnable task is starved for a stretch of steps)
 	Strategy   int `json:"strategy"`
 	PreemptPct int `json:"preempt_pct"`
 	// Burst (race sweep): every client that can send does so in the same step, so
@@ -223,6 +224,8 @@ type World struct {
 	idle     int
 	idleTime time.Duration
 	prio     map[string]int
+	starveName string // strategy 3: the task currently starved
+	starveLeft int
 	j        *core.Journal
 }
 
@@ -630,6 +633,34 @@ func (w *World) choose(evs []event) event {
 			// client-side events still get their share
 			if !w.tape.Chance(30, 100) {
 				return evs[best]
+			}
+		}
+	case 3:
+		// stutter: now and then one runnable task is left out for a stretch of steps
+		// (a goroutine that lost its time slice while everyone else keeps going)
+		if w.starveLeft == 0 && w.tape.Chance(12, 100) {
+			var runs []event
+			for _, e := range evs {
+				if e.kind == "run" {
+					runs = append(runs, e)
+				}
+			}
+			if len(runs) > 0 {
+				w.starveName = runs[w.tape.Draw(len(runs))].name
+				w.starveLeft = 4 + w.tape.Draw(60)
+			}
+		}
+		if w.starveLeft > 0 {
+			w.starveLeft--
+			var rest []event
+			for _, e := range evs {
+				if !(e.kind == "run" && e.name == w.starveName) {
+					rest = append(rest, e)
+				}
+			}
+			if len(rest) > 0 && len(rest) < len(evs) {
+				w.res.Faults["starved-task-step"]++
+				evs = rest
 			}
 		}
 	}
